@@ -332,6 +332,9 @@ func (e *Env) local(name string) *Val {
 			if a.Heap {
 				// escaping local: lives in the heap of its type
 				r, ok := e.fr.regs[a]
+				if ok && r.P != nil {
+					return e.vc.load(e.fr, e.st, r.P, token.NoPos)
+				}
 				if !ok || r.S == "" {
 					return e.fail("local %q is not live here", name)
 				}
@@ -699,7 +702,27 @@ func (e *Env) call(n *SCall) *Val {
 	case "unchanged", "loopkept":
 		// unchanged(heap[T]): every object of type T that existed at function entry
 		// has its entry value; loopkept(heap[T]): every object that existed when
-		// the enclosing loop was entered has the value it had then
+		// the enclosing loop was entered has the value it had then;
+		// loopkept(heap[T], s): the same except for the elements of slice s
+		if n.Fun == "loopkept" && len(n.Args) == 2 {
+			hl, ok := n.Args[0].(*SHeapLit)
+			if !ok || hl.Maps || e.pre == nil {
+				return e.fail("loopkept(heap[T], slice) inside a loop invariant")
+			}
+			t, err := e.resolveType(hl.Type)
+			if err != nil {
+				return e.fail("%v", err)
+			}
+			sv := arg(1)
+			_, h1 := vc.heap(e.st, t)
+			_, h0 := vc.heap(e.pre, t)
+			if h1 == h0 {
+				return &Val{T: tBool, S: "true"}
+			}
+			qn := fmt.Sprintf("q_un_%d", e.depth)
+			return &Val{T: tBool, S: fmt.Sprintf("(forall ((%s Int)) (! (=> (and (< 0 %s) (< %s %s) (not (and (<= (sptr %s) %s) (< %s (+ (sptr %s) (slen %s)))))) (= (select %s %s) (select %s %s))) :pattern ((select %s %s)) :pattern ((select %s %s))))",
+				qn, qn, qn, e.pre.alloc, sv.S, qn, qn, sv.S, sv.S, h1, qn, h0, qn, h1, qn, h0, qn)}
+		}
 		if !need(1) {
 			return e.fail("")
 		}
